@@ -119,6 +119,16 @@ P["C11"] = dict(cat="proof",
          "cover the stack discipline, which turns 'stack back at its pre-call level' into the observable usage comparison. CLI tools: "
          "only through C20's readers/writers.",
     tech="Coq proof about the allocator model + trace correspondence + sanitized replay of all streams", ref="DESIGN.md C11")
+P["C16"] = dict(cat="proof",
+    text="Coq: equimod_all is the definition of doc/equimodular.md made executable (for some column basis B the gcd of the r x r "
+         "minors of M_B is k and the integer X with M = M_B X is TU by the proved determinant oracle): soundness and completeness with "
+         "respect to the Prop-level definition for all shapes; judge soundness (verdict, requested k honoured, reported k, strong = "
+         "also the transpose, unimodular = k 1, CMR_ERROR_OVERFLOW only accepted for entries >= 1000). Tie: CMRequimodularTest / "
+         "TestStrong / CMRunimodularTest / TestStrong on all integer matrices with entries in {-2..2} up to m*n <= 4/6, all 2x2 over "
+         "{-3..3}, random, rank-deficient, B*X-constructed and nonsingular matrices, and matrices with entries near 2^31.",
+    note=NOTE_COMMON + "that the verdict does not depend on the chosen basis is not proved (the oracle quantifies over all bases, as the "
+         "definition does); the oracle is exponential and used up to about 4x5.",
+    tech="Coq proof (oracle <-> definition, judge soundness) + extracted judge run against the four entry points", ref="DESIGN.md C16")
 P["C18"] = dict(cat="proof",
     text="Coq: the injected clock schedule (read r returns r ticks, +2000 s from read k on) makes a check at read c of a function entered "
          "at read s give up iff s < k <= c; hence enumerating k = 0..N reaches every timeout exit the unlimited run passes; decision rule "
